@@ -428,9 +428,9 @@ pub fn run(args: &Args, rep: &Arc<Report>) {
     let groups = if args.replay.is_some() {
         vec![]
     } else if thorough {
-        vec![ustream::gh(), ustream::gs(&[1, 2]), ustream::g1(&[2])]
+        vec![ustream::gh(), ustream::gs(&[1, 2]), ustream::g1(&[2]), ustream::gl()]
     } else {
-        vec![ustream::gh(), ustream::gs(&[2])]
+        vec![ustream::gh(), ustream::gs(&[2]), ustream::gl()]
     };
     let d = if thorough { 3 } else { 2 };
     drive(args, rep, d, true, groups, |case, labels, local| {
